@@ -33,7 +33,7 @@ def mk_attr(eng, st, name='S.cursor.attr'):
         'data': StrV(' ', prov=('inv', 'blank')),
         'fg': StrV(None, prov=('inv', 'colour'), oid=next(_c)),
         'bg': StrV(None, prov=('inv', 'colour'), oid=next(_c)),
-    })
+    }, prov=('cursor.attr',))
 
 
 def screen_init(eng, st, margins='either'):
